@@ -377,6 +377,7 @@ func cmdReplay(props map[string]Property, args []string) int {
 		fmt.Fprintln(os.Stderr, "unknown property", v.Property)
 		return ExitInfra
 	}
+	simctx.StartMemoryMonitor(256 << 20)
 	var w *Violation
 	if strings.HasPrefix(v.Class, "fatal") || strings.HasPrefix(v.Class, "race") {
 		w = execInChild(p, v.Case, verifDir())
